@@ -6,6 +6,8 @@ import (
 )
 
 var vHarnesses = map[string]func(p []int){
+	"H_C05_dft":      func(p []int) { H_C05_dft(p[0]) },
+	"H_C05_ceilpow2": func(p []int) { H_C05_ceilpow2() },
 	"H_C18_pure":       func(p []int) { H_C18_pure(p[0], p[1], p[2]) },
 	"H_C18_pure_bytes": func(p []int) { H_C18_pure_bytes(p[0], p[1]) },
 	"H_C17": func(p []int) { H_C17(p[0], p[1], p[2], p[3], p[4], p[5], p[6], p[7], p[8]) },
